@@ -149,10 +149,10 @@ Definition mon_C03 (o : cli_obs) : bool :=
   N.eqb (N.of_nat (n_started o)) (c_n o).
 
 (** ** C04 through the binary: a time limit that fires while a long evaluation (8 s) is in flight
-    ends the run within 2.5 s of the limit (the child is aborted, with or without -k) *)
+    ends the run within 4 s of the limit (the child is aborted, with or without -k) *)
 Definition mon_C04 (o : cli_obs) : bool :=
   match c_limit_ms o with
-  | Some l => negb (c_timed_out o) && (pre_error o || N.leb (c_wall_ms o) (l + 2500))
+  | Some l => negb (c_timed_out o) && (pre_error o || N.leb (c_wall_ms o) (l + 4000))
   | None => true
   end.
 
